@@ -68,17 +68,17 @@ def explorations(tier):
         ex.append(("engine G3 W=3 sync b<=1", ENGINE, EC([3], [3], scheds), {"preempt": 1, "random": 1}))
         ex.append(("engine G4 W=2 sync b<=2", ENGINE, EC([4], [2], scheds), {"preempt": 2, "random": 1, "yield": 1}))
         ex.append(("engine G3 W=2 bytecode b<=2", ENGINE, with_(EC([3], [2], scheds), bc=True), {"preempt": 2, "random": 1, "yield": 1}))
-        ex.append(("engine G4-join W=2 bytecode b<=2", ENGINE,
-                   with_(EC([4], [2], ["default", "random"], only_join=True), bc=True), {"preempt": 2, "random": 1, "yield": 1}))
-        ex.append(("api outputs n=3, every edge kind: W=1 every pop order, W=2 b<=1", PLAN,
-                   api_cfgs(3, [(1, "random"), (2, "default"), (2, "random")], kinds=planh.EDGE_KINDS), {"preempt": 1, "random": 2, "yield": 1}))
+        ex.append(("engine G4-join W=2 bytecode b<=1, default and random queue", ENGINE,
+                   with_(EC([4], [2], ["default", "random"], only_join=True), bc=True), {"preempt": 1, "random": 1}))
+        ex.append(("api outputs n=3, six edge kinds: W=1 every pop order, W=2 b<=1", PLAN,
+                   api_cfgs(3, [(1, "random"), (2, "default")], kinds=("p", "k", "d", "pd", "l", "la")), {"preempt": 1, "random": 2, "yield": 1}))
         ex.append(("api outputs n=3, argument / dependency / literal edges: W=2 b<=2", PLAN,
                    api_cfgs(3, [(2, "default")], kinds=("p", "d", "l")), {"preempt": 2, "random": 1, "yield": 0}))
         ex.append(("api outputs n=4: W=1 every pop order", PLAN, api_cfgs(4, [(1, "random")], kinds=("p", "d")), {"preempt": 0}))
         from .c06 import api_fail_cfgs, engine_fail_cfgs
         ex.append(("engine G3 x fault patterns, W=2, b<=2", ENGINE, engine_fail_cfgs([3], [2], ["default", "random"], max_errors=(0, 1, None)), {"preempt": 2, "random": 1, "yield": 1}))
         ex.append(("engine G3 x fault patterns, W=3, b<=1", ENGINE, engine_fail_cfgs([3], [3], ["default"], max_errors=(0, None)), {"preempt": 1, "random": 1}))
-        ex.append(("api plans n=3 x fault patterns, W=2, b<=2", PLAN, api_fail_cfgs(3, [(2, "default"), (2, "random")], kinds=("p", "d", "l"), max_errors=(0, None)), {"preempt": 2, "random": 1, "yield": 0}))
+        ex.append(("api plans n=3 x fault patterns, W=2, b<=2", PLAN, api_fail_cfgs(3, [(2, "default")], kinds=("p", "d", "l"), max_errors=(0, None)), {"preempt": 2, "random": 1, "yield": 0}))
     return ex
 
 
